@@ -17,6 +17,9 @@ if git status --short | grep -q "^UU\|^AA\|^DU\|^UD"; then
 fi
 left=$(grep -l "^<<<<<<<" DESIGN.md known_findings.json $(git diff --name-only --diff-filter=U) 2>/dev/null </dev/null)
 if [ -n "$left" ]; then echo "UNRESOLVED: $left"; exit 1; fi
-python3 -c "import json;json.load(open('known_findings.json'))" || exit 1
+python3 -c "
+import json,sys
+bad=[f for f in json.load(open('known_findings.json'))['findings'] if not all(x in f for x in ('id','property','status','match','what'))]
+if bad: print('MALFORMED known_findings entries:', bad); sys.exit(1)" || exit 1
 python3-vt tools/gen_manifest.py >/dev/null && python3 tools/gen_design_tables.py >/dev/null
 git add -A; git commit -qm "$msg" </dev/null; echo "merged $b: $(git log --oneline | head -1)"
